@@ -3,6 +3,7 @@ import GroupbyVerif.Model.Align
 import GroupbyVerif.Model.Facade
 import GroupbyVerif.Model.Margins
 import GroupbyVerif.Model.Composite
+import GroupbyVerif.Model.Nearby
 
 /-!
 # gbdriver — executable model behind the line protocol
@@ -67,6 +68,13 @@ def opMono (kv : KV) : Option String := do
   let xs ← parseValList (← get kv "xs")
   let (cut, codes, labels) := monotonicFactorization Val.lt Val.gt Val.isNan xs
   pure s!"cutoff={cut} codes={showInts ((codes.take cut).map Int.ofNat)} labels={showVals labels}"
+
+/-- `group_nearby_members` on integer-valued rows -/
+def opNearby (kv : KV) : Option String := do
+  let codes ← parseIntList (← get kv "codes")
+  let vals ← parseValList (← get kv "vals")
+  let d ← parseVal (← get kv "maxdiff")
+  pure s!"model={showInts (nearby d (codes.zip vals))}"
 
 /-- single-group evaluation through the per-group fold (equal to the array-level kernel by `groupFold_spec`) -/
 def groupPositions (codes : List Int) (forward : Bool) (g : Int) : List Nat :=
@@ -303,6 +311,7 @@ def step (line : String) : String :=
       | "mono" => opMono kv
       | "margins" => opMargins kv
       | "composite" => opComposite kv
+      | "nearby" => opNearby kv
       | _ => none
     r.getD "bad-op"
 
